@@ -63,3 +63,11 @@ extern int g_verdict, g_pendingT, g_fail_seen;
 void cleandied(void) {}
 int rewrite(char *recip) { V_ASSERT(g_pendingT, "C10: supporting: rewrite is applied to recipient records"); g_verdict = ND_INT(); if (g_verdict != 1 && g_verdict != 2) { g_verdict = 0; g_fail_seen = 1; } return g_verdict; }
 #endif
+#ifdef P_DELFRAME
+extern int g_needs_close, g_close_j, g_c;
+void markdone(int c, unsigned long id, off_t pos) { V_ASSERT(g_needs_close && c == g_c, "C18: out-of-range, unused or incomplete reports mark no recipient as finished"); }
+void addbounce(unsigned long id, char *recip, char *report) { V_ASSERT(g_needs_close, "C18: out-of-range, unused or incomplete reports record no failure"); }
+void job_close(int j) { V_ASSERT(g_needs_close && j == g_close_j, "C18: only a complete report naming a used slot in range releases a delivery, and it releases that slot's job"); g_needs_close = 0; }
+void spawndied(int c) {}
+void del_status(void) {}
+#endif
